@@ -73,25 +73,26 @@ def main():
     if mode in ("worker", "trace-worker"):
         arm = instr.TR.arm(role, pause_k=k if mode == "worker" else None, record=(mode == "trace-worker"))
     futs = []
-    if state == "busy":
-        # submit from a helper thread: the main thread must stay free to exit even
-        # if the (paused) worker holds a lock that submit() needs
-        def feeder():
+
+    # every library call is made from a helper thread: the main thread must stay free to exit even if
+    # the (paused) worker holds a lock that submit() needs
+    def feeder():
+        if state == "busy":
             for i in range(5):
                 futs.append(ex.submit(lambda i=i: i))
-        threading.Thread(target=feeder, daemon=True).start()
-    elif state == "backoff":
-        def bad():
-            raise ValueError("x")
-        futs.append(ex.submit(bad))
-    elif state == "polling":
-        futs.append(ex.submit(lambda: 1))
-    else:
-        # idle: still wake the worker once so that it iterates
-        if hasattr(ex, "notify"):
-            ex.notify()
+        elif state == "backoff":
+            def bad():
+                raise ValueError("x")
+            futs.append(ex.submit(bad))
+        elif state == "polling":
+            futs.append(ex.submit(lambda: 1))
         else:
-            futs.append(ex.submit(lambda: 0))
+            # idle: still wake the worker once so that it iterates
+            if hasattr(ex, "notify"):
+                ex.notify()
+            else:
+                futs.append(ex.submit(lambda: 0))
+    threading.Thread(target=feeder, daemon=True).start()
     out = {"kind": kind, "state": state, "mode": mode, "k": k}
     if mode == "worker":
         t_end = time.time() + 5
